@@ -373,6 +373,7 @@ func cmdCheck(args []string) {
 	}
 	fmt.Printf("property %s tier %s: %d obligations, %d discharged, %d known findings, %d violations, %.1fs\n", *prop, *tier, len(all), discharged, len(knownHit), violations, time.Since(t0).Seconds())
 	if violations > 0 {
+		os.RemoveAll(dir) // (os.Exit skips the deferred clean-up)
 		os.Exit(1)
 	}
 }
